@@ -28,6 +28,7 @@ RULE += ' Unit part also: entries far in the future (2300-9000) in 15% of the ma
 RULE += " Unit part also: null timestamps (pd.NaT) as entry dates; the dict SingleSignalAlphaModel returns and the equal-weight optimiser's answer are emptied/extended by the caller before the next call; the static universe is built from a shuffled caller list that must keep its order after a signal was built on it."
 RULE += ' Unit part also: entry instants converted to second / millisecond / nanosecond resolution or rebuilt from a date.'
 RULE += ' 30% of the unit probes re-assign StaticUniverse.asset_list and FixedSignalsAlphaModel.signal_weights after first use and expect the new values.'
+RULE += ' Round 11: for every member with an entry date, the first scheduled rebalance at or after the entry (burn-in inclusive) ran and its target allocation carries the asset.'
 ASSUMPTIONS = ['UTC timestamps']
 
 
